@@ -283,6 +283,55 @@ pub fn shared_header_values_part(cov: &mut Cov) -> Option<Found> {
     None
 }
 
+/// The storage API used directly (as a maintenance tool or an importer would): another client
+/// stores a version under an id that a client's accepted version already has, and a snapshot for
+/// it. The call may succeed or fail; the first client's chain and snapshot are served as before.
+pub fn storage_api_same_version_id_part(property: &str, cov: &mut Cov) -> Option<Found> {
+    use crate::subject::Kind;
+    for kind in [Kind::MEM_LIB, Kind::SQL_LIB] {
+        let mut subj = Subject::new(kind, Config::default()).ok()?;
+        let fail = |m: String| Some(Found { property: property.into(), signature: format!("{property}:same-version-id {}", m.split_whitespace().take(5).collect::<Vec<_>>().join(" ")), msg: format!("[{}] {m}", kind.name()), replay: json!({"origin": "storage-api-same-version-id", "case": 0}) });
+        let a = Uuid::new_v4();
+        let mut chain: Vec<(Uuid, Uuid)> = vec![];
+        let mut p = Uuid::nil();
+        for i in 0..3u8 {
+            if let Resp::AddOk { vid, .. } = subj.exec(a, &Req::AddVersion { parent: p, data: format!("segment {i} of A").into_bytes() }) {
+                chain.push((vid, p));
+                p = vid;
+            }
+        }
+        if chain.len() < 3 {
+            return None;
+        }
+        let _ = subj.exec(a, &Req::AddSnapshot { vid: chain[1].0, data: b"snapshot of A".to_vec() });
+        let reads = |s: &mut Subject| -> Vec<Resp> {
+            let mut v: Vec<Resp> = chain.iter().map(|(_, par)| s.exec(a, &Req::GetChild { parent: *par })).collect();
+            v.push(s.exec(a, &Req::GetChild { parent: chain[2].0 }));
+            v.push(s.exec(a, &Req::GetSnapshot));
+            v
+        };
+        let before = reads(&mut subj);
+        for (k, (vid, _)) in chain.iter().enumerate() {
+            let b = Uuid::new_v4();
+            let outcome = (|| -> anyhow::Result<()> {
+                let mut t = subj.storage.txn(b)?;
+                t.new_client(Uuid::nil())?;
+                t.add_version(*vid, Uuid::nil(), format!("segment of B under A's id #{k}").into_bytes())?;
+                t.set_snapshot(taskchampion_sync_server_core::Snapshot { version_id: *vid, timestamp: chrono::Utc::now(), versions_since: 0 }, b"snapshot of B".to_vec())?;
+                t.commit()
+            })();
+            cov.evaluations += 1;
+            cov.hit(format!("storage-api-same-version-id|{}|{}", kind.name(), if outcome.is_ok() { "stored" } else { "refused" }));
+            let after = reads(&mut subj);
+            if after != before {
+                let i = (0..before.len()).find(|i| after[*i] != before[*i]).unwrap_or(0);
+                return fail(format!("after another client stored (storage call {}) a version under the id of client A's version #{k}, client A's read #{i} is answered {} (before: {})", if outcome.is_ok() { "succeeded" } else { "failed" }, after[i].short(), before[i].short()));
+            }
+        }
+    }
+    None
+}
+
 pub fn shard_run(tier: &str, seed: u64, shard: Shard) -> ShardOut {
     let thorough = tier == "thorough";
     let mut out = ShardOut::default();
